@@ -3,8 +3,8 @@
    function arguments, and every theorem quantifies over ALL of them: the sign of the result does not depend on the
    data (signed tensors included), on the iteration caps or on when the loops stop.
    vnn v = every entry of the vector >= 0;  mnn M = every entry of the matrix >= 0;  vge eps v = every entry >= eps. *)
-From Coq Require Import List Arith Bool Reals QArith Lra.
-From TLV Require Import Base.Shape Base.PyList Base.Tensor Base.Ops Model.Nonneg Model.NonnegSign Model.NonnegFlow Model.NonnegOptions Proofs.NonnegProofs Proofs.NonnegProofs2 Proofs.NonnegSignProofs Proofs.NonnegFlowProofs Proofs.NonnegOptionsProofs.
+From Coq Require Import List Arith Bool Reals QArith ZArith Lra.
+From TLV Require Import Base.Shape Base.PyList Base.Tensor Base.Ops Model.Nonneg Model.NonnegSign Model.NonnegFlow Model.NonnegOptions Proofs.NonnegProofs Proofs.NonnegProofs2 Proofs.NonnegSignProofs Proofs.NonnegFlowProofs Proofs.NonnegOptionsProofs Model.NonnegP2Ls Proofs.NonnegP2LsProofs Proofs.NonnegFlowPeelProofs Model.NonnegCcpSpec Proofs.NonnegCcpSpecProofs.
 Import ListNotations.
 Open Scope R_scope.
 
@@ -205,6 +205,72 @@ Theorem C10_parafac2 : forall (nrm : list R -> R), (forall v, 0 <= nrm v) ->
   vnn (fst out) /\ forall m, In m nn_modes -> mnn (nth m (snd out) []).
 Proof. exact parafac2_nonneg. Qed.
 Print Assumptions C10_parafac2.
+
+(* ---- round 7: constrained_parafac with its RAW non_negative argument (Model/NonnegCcpSpec.v: the registration of validate_constraints - True / list of
+        booleans / dictionary incl. negative keys and False values -, raw fixed_modes, user weights pulled into the last factor) *)
+Theorem C10_constrained_parafac_entry : forall (other : nat -> list (list R) -> list (list R))
+         (split : nat -> @ccp_state R -> nat -> list (list R) -> list (list R) -> list (list R)) (inner : nat -> @ccp_state R -> nat -> nat)
+         (stop : nat -> @ccp_state R -> bool) (n : nat) (spec : nn_spec) (fixed : option (list nat)) (n_iter_max : nat) (w : list R) (Fs : list (list (list R))),
+  vnn w -> (forall m, In m (registered n spec) -> mnn (nth m Fs [])) ->
+  forall m, In m (registered n spec) -> mnn (nth m (fst (constrained_parafac_entry Rops other split inner stop n spec fixed n_iter_max w Fs)) []).
+Proof. exact constrained_parafac_entry_nonneg. Qed.
+Print Assumptions C10_constrained_parafac_entry.
+(* every mode the caller declares (True: all; the truthy positions of a list; the dictionary keys stored with a truthy value) is registered, hence covered *)
+Theorem C10_nn_spec_declared_registered : forall (n : nat) (spec : nn_spec), incl (declared n spec) (registered n spec).
+Proof. exact declared_registered. Qed.
+Print Assumptions C10_nn_spec_declared_registered.
+Theorem C10_nn_spec_list : forall (n : nat) (l : list bool) (m : nat), In m (registered n (NSList l)) <-> (m < n)%nat /\ nth m l false = true.
+Proof. exact registered_list. Qed.
+Print Assumptions C10_nn_spec_list.
+Theorem C10_nn_spec_dict : forall (n : nat) (l : list (Z * bool)) (m : nat), In m (declared n (NSDict l)) <-> exists k, In (k, true) l /\ m = py_index n k.
+Proof. exact declared_dict. Qed.
+Print Assumptions C10_nn_spec_dict.
+(* a negative dictionary key -k (1 <= k <= n) declares mode n - k *)
+Theorem C10_nn_spec_negative_key : forall (n k : nat), (0 < k <= n)%nat -> py_index n (- Z.of_nat k) = (n - k)%nat.
+Proof. exact py_index_neg. Qed.
+Print Assumptions C10_nn_spec_negative_key.
+
+(* ---- round 7: PARAFAC2 with a USER-SUPPLIED line-search object (a _BroThesisLineSearch instance is used as it is and clips on its OWN nn_modes,
+        Model/NonnegP2Ls.v).  Genuine gap of the implementation (known finding parafac2_user_linesearch_own_nn_modes): an instance whose nn_modes lack a
+        declared mode returns the unclipped extrapolation of that mode when a jump is accepted. *)
+Theorem C10_parafac2_user_linesearch_refuted :
+  exists utm utu solve inner istop,
+    let init := ([1%Q], [[[1%Q]]; [[1%Q]]; [[1%Q]]]) in
+    qneg (nth 0 (nth 0 (nth 0 (snd (parafac2_ls Qops (fun _ => 1%Q) utm utu solve inner istop [0; 2]%nat (@nil nat) 1 (fun _ => Some 3%Q) (fun _ _ => true)
+                                     false (fun _ _ => false) 1 init)) []) []) 0%Q) /\
+    nth 0 (nth 0 (nth 0 (snd (parafac2_ls Qops (fun _ => 1%Q) utm utu solve inner istop [0; 2]%nat [0; 2]%nat 1 (fun _ => Some 3%Q) (fun _ _ => true)
+                                     false (fun _ _ => false) 1 init)) []) []) 1%Q = 0%Q.
+Proof. exact parafac2_user_linesearch_witness. Qed.
+Print Assumptions C10_parafac2_user_linesearch_refuted.
+(* what does hold: an instance whose own nn_modes contain every declared mode (incl ..) keeps the weights and every declared mode feasible *)
+Theorem C10_parafac2_user_linesearch_partial : forall (nrm : list R -> R), (forall v, 0 <= nrm v) ->
+  forall (utm utu : nat -> nat -> @cp_state R -> nat -> list (list R)) (solve : list (list R) -> list (list R) -> list (list R))
+         (inner : nat -> nat -> @cp_state R -> nat -> nat) (istop : nat -> nat -> @cp_state R -> bool) (nn_modes ls_nn_modes : list nat)
+         (n_iter_parafac : nat) (line : nat -> option R) (accept : nat -> @cp_state R -> bool) (normalize : bool)
+         (stop : nat -> @cp_state R -> bool) (n_iter_max : nat) (w : list R) (Fs : list (list (list R))),
+  incl nn_modes ls_nn_modes -> vnn w -> (forall m, In m nn_modes -> mnn (nth m Fs [])) ->
+  let out := parafac2_ls Rops nrm utm utu solve inner istop nn_modes ls_nn_modes n_iter_parafac line accept normalize stop n_iter_max (w, Fs) in
+  vnn (fst out) /\ forall m, In m nn_modes -> mnn (nth m (snd out) []).
+Proof. exact parafac2_ls_nonneg. Qed.
+Print Assumptions C10_parafac2_user_linesearch_partial.
+(* the decomposition's own line search (linesearch=True) is the instance ls_nn_modes = nn_modes: the model of C10_parafac2 *)
+Theorem C10_parafac2_own_linesearch : forall (nrm : list R -> R) utm utu solve inner istop nn_modes n_iter_parafac line accept normalize stop n_iter_max init,
+  parafac2_ls Rops nrm utm utu solve inner istop nn_modes nn_modes n_iter_parafac line accept normalize stop n_iter_max init
+  = parafac2 Rops nrm utm utu solve inner istop nn_modes n_iter_parafac line accept normalize stop n_iter_max init.
+Proof. exact (@parafac2_ls_same R Rops). Qed.
+Print Assumptions C10_parafac2_own_linesearch.
+
+(* ---- round 7: the "at least one iteration" rule of the flow translator: a loop known to run at least once is analysed as block { body; loop { body } };
+        that block has exactly the runs of the loop in which the body is entered (sound and complete), and verdict 0 on the peeled program covers them *)
+Theorem C10_flow_peel_exact : forall (c : cmd) (st : state) (o : outc) (st' : state),
+  loop_once c st o st' <-> exec (CBlock (CSeq c (CLoop c))) st o st'.
+Proof. intros; split; [apply peel_sound | apply peel_complete]. Qed.
+Print Assumptions C10_flow_peel_exact.
+Theorem C10_flow_peel_verdict_sound : forall (pre c post : cmd) (a0 : aenv),
+  flow_verdict (CSeq pre (CSeq (CBlock (CSeq c (CLoop c))) post)) a0 = 0%nat ->
+  forall st st1 st2 st' l, gamma a0 st -> exec pre st ONorm st1 -> loop_once c st1 ONorm st2 -> exec post st2 (ORet l) st' -> vnnR l.
+Proof. exact peel_verdict_sound. Qed.
+Print Assumptions C10_flow_peel_verdict_sound.
 
 (* the built-in initialisations of parafac2 are projected on the declared modes *)
 Theorem C10_initialize_parafac2_feasible : forall (nn_modes : list nat) (raw : list (list (list R))),
@@ -415,3 +481,14 @@ Example C10_flow_insensitive_rejects :
 Proof. exact flow_insensitive_rejects. Qed.
 Example C10_flow_semantics_inhabited : exists st l, exec (mini_flow true) (fun _ => []) (ORet l) st.
 Proof. exact flow_exec_inhabited. Qed.
+(* the peel rule decides: a miniature active-set body from a signed start is rejected as a plain loop, accepted once the loop runs at least once *)
+Example C10_flow_peel_needed : flow_verdict (CSeq CSkip (CSeq (CLoop mini_body) (CReturn (XVar 0%nat)))) [SgAny] = 2%nat.
+Proof. exact peel_rejected_without. Qed.
+Example C10_flow_peel_accepts : flow_verdict (CSeq CSkip (CSeq (CBlock (CSeq mini_body (CLoop mini_body))) (CReturn (XVar 0%nat)))) [SgAny] = 0%nat.
+Proof. exact peel_accepted_with. Qed.
+(* what the parsing of the raw non_negative argument does on small instances *)
+Example C10_nn_spec_examples :
+  declared 3 (NSDict [((-1)%Z, true)]) = [2%nat] /\ registered 3 (NSDict [(0%Z, false); (1%Z, true)]) = [0%nat; 1%nat] /\
+  declared 3 (NSDict [(0%Z, false); (1%Z, true)]) = [1%nat] /\ declared 3 (NSList [true]) = [0%nat] /\
+  declared 3 (NSList [true; false; true]) = [0%nat; 2%nat] /\ declared 3 (NSBool false) = [] /\ declared 3 (NSDict []) = [] /\ declared 2 (NSBool true) = [0%nat; 1%nat].
+Proof. exact spec_examples. Qed.
